@@ -126,6 +126,24 @@ def check_case(case):
                 r.v("C19/time-lookup-nearest/%s" % name, "without dense output a time lookup returns the recorded sample nearest in time", dict(cs, q=float(q)),
                     observed=dict(t=float(got.t)), expected=dict(nearest_t=[float(T[i]) for i in near], rows=n))
                 break
+    # ---- array-valued time lookups (dense output kept): one entry per query time, each equal to the scalar lookup at that time - inside the range, at the
+    #      recorded times and just outside both ends, in any order
+    if case["dense"] and n > 1:
+        arr_q = np.asarray([dtype(x) for x in (qs[::3] + outside + [T[0], T[-1], T[n // 2]])], dtype=dtype)
+        for label, aq in (("array", arr_q), ("reversed", arr_q[::-1].copy()), ("list", [x for x in arr_q]), ("one-element", arr_q[-4:-3].copy())):
+            r.n += 1
+            try:
+                got = a[aq]
+                gy = np.asarray(got.y); gt = np.asarray(got.t)
+                want = np.stack([np.asarray(a[x].y) for x in np.asarray(aq)])
+                if gy.shape != want.shape or gt.shape != (len(want),) or not np.array_equal(gt, np.asarray(aq)) or float(np.max(np.abs(gy.astype(LD) - want.astype(LD)))) > 64 * driver.eps_of(dtype) * max(1.0, float(np.max(np.abs(want.astype(np.float64))))):
+                    bad = int(np.argmax(np.max(np.abs(gy.astype(LD) - want.astype(LD)), axis=-1))) if gy.shape == want.shape else -1
+                    r.v("C19/time-lookup-array/%s" % name, "looking the trajectory up at an array of times returns the dense solution at each of them", dict(cs, query=label),
+                        observed=dict(shape=list(gy.shape), worst_entry=bad, t=float(np.asarray(aq)[bad]) if bad >= 0 else None), expected="entry-wise equal to the scalar lookups")
+                    break
+            except Exception as ex:
+                r.v("C19/time-lookup-array/%s" % name, "looking the trajectory up at an array of times returns the dense solution at each of them", dict(cs, query=label), observed=repr(ex)[:200], expected="states")
+                break
     # ---- time slices spanning the whole run
     t0, tf = T[0], T[-1]
     slices = [("[:]", slice(None, None)), ("[t0:tf]", slice(t0, tf)), ("[t0:]", slice(t0, None)), ("[:tf]", slice(None, tf)),
